@@ -13,6 +13,8 @@ import core
 from core import enc, line
 
 ALPHA = "ab\r\n"
+# what str.splitlines() and friends break lines at, apart from CR and LF; plus tab, NUL, no-break space
+BREAK_LIKE = ["\x0b", "\x0c", "\x1c", "\x1d", "\x1e", "\x85", "\u2028", "\u2029", "\t", "\x00", "\xa0"]
 LDS = {"any": "any", "lf": "\n", "cr": "\r", "crlf": "\r\n", "none": None}
 
 
@@ -31,7 +33,7 @@ def impl_fixed(text, widths, ld):
     return "ok " + ";".join(",".join(enc(c) for c in r) for r in rows)
 
 
-def impl_reader(text, widths, ld):
+def impl_reader(text, widths, ld, on_error="raise"):
     """the same stream through the validating reader: a fixed-width CID of Text fields with these widths and this setting"""
     from cutplace import errors, interface, validio
 
@@ -39,7 +41,7 @@ def impl_reader(text, widths, ld):
     cid.read("c13", [["D", "Format", "Fixed"], ["D", "Line delimiter", {"any": "Any", "lf": "LF", "cr": "CR", "crlf": "CRLF", "none": "None"}[ld]],
                      ["D", "Allowed characters", "0..."]] + [["F", "f%d" % i, "", "X", str(w), "Text", ""] for i, w in enumerate(widths)])
     try:
-        rows = list(validio.Reader(cid, io.StringIO(text, newline="")).rows())
+        rows = list(validio.Reader(cid, io.StringIO(text, newline=""), on_error=on_error).rows())
     except errors.DataFormatError:
         return "error"
     except Exception as error:  # noqa
@@ -104,7 +106,7 @@ def run(ctx):
     rnd = ctx.rnd
     maxlen = 5 if ctx.tier == "quick" else 8
     ctx.rule = ("exhaustive: all strings up to length %d over {a, b, CR, LF} x all width lists with 1-3 fields of width 1-3 x the five line-delimiter settings; "
-                "plus random longer well-formed files (widths up to 5, up to 6 rows) with one character deleted, inserted or replaced at every offset; "
+                "plus random longer well-formed files (widths up to 5, up to 6 rows) with one character deleted, inserted or replaced at every offset; 11 characters other tools treat as line breaks (VT, FF, FS-RS, NEL, U+2028/9, tab, NUL, NBSP) in place of / next to the delimiter and inside records; a sample also through the validating reader (raise and continue mode) and through a file path; "
                 "distinct = distinct (text, widths, setting); non-trivial = non-empty text" % maxlen)
     ctx.exhaustive = True
     cases = []
@@ -138,8 +140,25 @@ def run(ctx):
                 cases.append((text[:off] + rnd.choice("a\r\n") + text[off:], ws, ld))
             elif off < len(text):
                 cases.append((text[:off] + rnd.choice("a\r\n") + text[off + 1:], ws, ld))
+    # characters other text tools treat as line breaks (str.splitlines, universal newlines, Unicode) are ordinary characters here:
+    # in place of a delimiter they are a wrong delimiter, inside a record they are data
+    n_before = len(cases)
+    for x in BREAK_LIKE:
+        for ws in ((3, 2), (1,), (2, 2, 1)):
+            width = sum(ws)
+            rows_ = ["abcdefgh"[:width], "ijklmnop"[:width]]
+            for ld in LDS:
+                d = {"any": "\n", "lf": "\n", "cr": "\r", "crlf": "\r\n", "none": ""}[ld]
+                for text in (rows_[0] + x + rows_[1] + d,             # in place of the delimiter
+                             rows_[0] + x + d + rows_[1] + d,         # before the delimiter
+                             rows_[0] + d + x + rows_[1] + d,         # after the delimiter
+                             rows_[0] + d + rows_[1] + x,             # at the very end
+                             x + rows_[0][1:] + d + rows_[1][:-1] + x + d,   # first and last character of a record
+                             rows_[0] + d + rows_[1][:1] + x + rows_[1][2:] + d):   # inside a record
+                    cases.append((text, ws, ld))
+    ctx.notes["break_like_cases"] = len(cases) - n_before
     ctx.notes["exhaustive_cases"] = n_exh
-    ctx.notes["mutation_cases"] = len(cases) - n_exh
+    ctx.notes["mutation_cases"] = n_before - n_exh
     # model + spec
     outs = core.run_driver([line("fixed", ",".join(str(w) for w in ws), ld, enc(text)) for text, ws, ld in cases])
     # implementation, in parallel
@@ -162,11 +181,13 @@ def run(ctx):
             ctx.violation(classify(ld, io_, s, text), "fixed_rows(%r, widths=%r, %s): implementation %s, grammar %s" % (text, list(ws), ld, io_, s), case)
         elif zlib.crc32(repr((text, ws, ld)).encode("utf-8")) % (61 if ctx.tier == "quick" else 29) == 0:
             # a sample of the cases also through cutplace's validating reader, which hands the CID's settings to fixed_rows
-            ir = impl_reader(text, ws, ld)
-            ctx.count(key=("reader", text, ws, ld), nontrivial=text != "", branch="reader:%s" % ld)
-            if ir != s:
-                ctx.violation("C13:reader:" + classify(ld, ir, s, text).split(":", 1)[1], "Reader over %r (widths %r, %s): %s, grammar %s" % (text, list(ws), ld, ir, s),
-                              dict(case, reader=ir))
+            for mode in ("raise", "continue"):
+                # (a malformed file is a data-format error whatever the mode does with rejected rows)
+                ir = impl_reader(text, ws, ld, mode)
+                ctx.count(key=("reader", mode, text, ws, ld), nontrivial=text != "", branch="reader:%s:%s" % (mode, ld))
+                if ir != s:
+                    ctx.violation("C13:reader:" + classify(ld, ir, s, text).split(":", 1)[1], "Reader (on_error=%s) over %r (widths %r, %s): %s, grammar %s" % (mode, text, list(ws), ld, ir, s),
+                                  dict(case, reader=ir, mode=mode))
             ip = impl_path(text, ws, ld)
             ctx.count(key=("path", text, ws, ld), nontrivial=text != "", branch="path:%s" % ld)
             if ip != s:
